@@ -61,11 +61,13 @@ const (
 	opCtxNew
 	opCtxCancel
 	opSetPolicy
+	opChoose
+	opEval
 )
 
 var opNames = [...]string{"start", "yield", "spawn", "acquire", "tryacquire", "release", "listen", "dial", "accept",
 	"lnclose", "lnsetdl", "read", "write", "close", "closeread", "closewrite", "abort", "setrdl", "setwdl",
-	"sleep", "await", "record", "ctxnew", "ctxcancel", "setpolicy"}
+	"sleep", "await", "record", "ctxnew", "ctxcancel", "setpolicy", "choose", "eval"}
 
 func (o opcode) String() string { return opNames[o] }
 
@@ -767,6 +769,18 @@ func (h *Hooks) Go(site string, fn func()) {
 	res := t.syscall(request{op: opSpawn, site: site})
 	child := res.task
 	go child.run(fn)
+}
+
+func (h *Hooks) Select(site string, n int) int {
+	t := Self()
+	if t == nil {
+		return 0
+	}
+	if t.loadHeld() > 0 {
+		return 0
+	}
+	res := t.syscall(request{op: opChoose, site: site, n: n})
+	return res.n
 }
 
 func (h *Hooks) Acquire(m uintptr, read bool, site string) {
